@@ -22,7 +22,8 @@ JudgeCmpText(rec) ==
     ELSE LET want == Compare(ca.v, cb.v) IN
          Checks(IF want = 0 THEN "equal" ELSE "strict",
             << <<rec.ok_a /\ rec.ok_b, "well-formed version text rejected">>,
-               <<rec.sign = want /\ rec.sign_ba = 0 - want, "two version texts compare differently from the versions they denote">> >>)
+               <<rec.sign = want /\ rec.sign_ba = 0 - want, "two version texts compare differently from the versions they denote">>,
+               <<rec.sign_reused = want, "two version texts decoded into variables that held another version compare differently from the versions they denote">> >>)
 
 JudgeCmp(rec) ==
     LET a == VerOf(rec.in.a)  b == VerOf(rec.in.b)  want == Compare(a, b) IN
